@@ -63,3 +63,42 @@ C20_RULE = ("for each of 20 (richer, simpler) solution pairs and both scalar typ
 CHECKS["C20"] = num_check("C20", 4000, 100000, binary="c20", with_prop=False, rule=C20_RULE,
                           assumptions=["the reference operator is used only as the scale of the comparison, never in the verdict",
                                        "shared parameters are the ones with identical names in both solutions"])
+
+
+HIST_ASSUME = [
+    "built against the exception-enabled library (-DMASA_EXCEPTIONS) so that misuse throws int instead of ending the harness",
+    "the reference model learns parameter names and default values from the library right after the first masa_init of each solution type and requires them to repeat ever after",
+    "capability sets come from the committed spec/capabilities.json (class declarations + naming convention), not from the tree under test",
+    "every history starts from the empty registry via the MASA_VERIF reset hook",
+]
+
+
+def hist_check(pid, cases_q, cases_t, rule, variant="exc", maxsize_q=100, maxsize_t=200, min_nt=(100, 1000)):
+    def workers(tier, seed, work):
+        n = cases_q if tier == "quick" else cases_t
+        per = max(1, n // NPROC)
+        jobs = []
+        for i in range(NPROC):
+            d = os.path.join(work, f"w{i}")
+            jobs.append(dict(argv=[os.path.join(BIN, f"hist.{variant}"), "--prop", pid, "--seed", str(mix(seed, i)), "--cases", str(per), "--maxsize", str(maxsize_q if tier == "quick" else maxsize_t),
+                                   "--out", os.path.join(d, "stats.json"), "--faildir", d], out=os.path.join(d, "stats.json"), faildir=d))
+        return jobs
+    return dict(id=pid, variants=[variant], bins=[f"hist.{variant}"], workers=workers, replay_argv=lambda path: [[os.path.join(BIN, f"hist.{variant}"), "--replay", path]],
+                rule=rule, assumptions=HIST_ASSUME, min_nontrivial={"quick": min_nt[0], "thorough": min_nt[1]}, timeout={"quick": 900, "thorough": 3000})
+
+
+HIST_GEN = ("rapidcheck generates a vector of raw operation records (0..maxsize of them); each record is decoded against the CURRENT model state "
+            "(handle slots, parameter/vector/evaluator indices modulo what exists, values from a magnitude-diverse decoder incl. +-0, denormals, 1e+-300, the marker) "
+            "so every generated and every shrunk history is valid; the library is driven step by step next to a reference model and compared after every step; ")
+CHECKS["C10"] = hist_check("C10", 8000, 200000, HIST_GEN + "C10: every provided evaluator call is repeated and re-evaluated on a fresh handle holding the same parameters (bit equality), and the "
+                           "full parameter/vector snapshot of the evaluated handle must be unchanged; all handles of both precisions are audited at the end. Non-trivial: >= 2 provided evaluations "
+                           "and a select of another handle or >= 2 inits in between. distinct = distinct decoded histories; evaluations = executed steps.")
+CHECKS["C11"] = hist_check("C11", 16000, 400000, HIST_GEN + "C11: set/get/init_param/purge/sanity/display/set_vec/get_vec against a per-handle map model, valid and invalid names, evaluations compared with a "
+                           "fresh handle that received only the final values. Non-trivial: an invalid-name operation, a purge or init_param, and a valid set in one history.")
+CHECKS["C12"] = hist_check("C12", 8000, 200000, HIST_GEN + "C12: init/select/re-init over 7 verbatim handle strings (incl. empty, blanks, case twins) in both precisions; after EVERY step every handle of both "
+                           "registries is selected in turn and compared with the model (isolation), masa_list_mms is parsed and compared. Non-trivial: >= 3 inits, a re-init of a live handle and two handles of one type.")
+CHECKS["C15"] = hist_check("C15", 16000, 400000, HIST_GEN + "C15: evaluator overloads outside the selected solution's capability set must return exactly -1.33, print (S)MASA ERROR, not throw, and leave every "
+                           "parameter unchanged. Non-trivial: >= 3 such calls in one history.")
+CHECKS["C17"] = hist_check("C17", 16000, 400000, HIST_GEN + "C17: every extern \"C\" entry point (header-declared and cmasa.cpp-only) is called and followed by the <double> template call obtained from the NAMING "
+                           "convention at the same state: evaluators bitwise, statuses equal (non-zero cases generated: purge, empty vector, unknown names, the failing fixture), arrays through exact-size heap "
+                           "buffers, masa_get_name into a sentinel-filled buffer. Non-trivial: >= 3 C calls interleaved with >= 1 C++ state change.")
